@@ -91,12 +91,12 @@ def check_closed(ctx: Ctx, te: FuncInfo, ts: FuncInfo):
         top = [s for s in fi.body if isinstance(s, ast.If)]
         if not top:
             raise AnchorError(fi.short, "dispatch chain not found")
-        chain, els = q.if_chain(top[-1])
-        ctx.check(bool(els) and isinstance(els[-1], ast.Raise), "DP-CLOSED", fi, "final else raises", "", "the final else of the dispatch chain does not raise", top[-1])
-        if len(chain) < 4:
-            raise AnchorError(fi.short, f"dispatch chain has only {len(chain)} branches")
+        chain, els = q.dispatch_chain(fi.body)
+        if els is None or len(chain) < 4:
+            raise AnchorError(fi.short, f"the dispatch is neither one if/elif chain nor a sequence of returning ifs ({len(chain)} branches read)")
+        ctx.check(bool(els) and isinstance(els[-1], ast.Raise), "DP-CLOSED", fi, "final else raises", "", "what follows the last dispatch test does not raise: an unknown construct is not rejected", top[-1])
     # sub-chains inside translate_expression: UnaryOp, BinOp, Call end in raise
-    chain, _ = q.if_chain([s for s in te.body if isinstance(s, ast.If)][-1])
+    chain, _ = q.dispatch_chain(te.body)
     for test, body in chain:
         hs = q.isinstance_heads(test, te.params[0])
         for h in hs:
@@ -104,7 +104,7 @@ def check_closed(ctx: Ctx, te: FuncInfo, ts: FuncInfo):
                 ok, off = returns_or_raises_everywhere(body)
                 ctx.check(ok, "DP-CLOSED", te, f"{h} branch: every path returns or raises", "", f"the {h} branch lets an unsupported form fall through", off if off is not None else test)
     # translate_statement: Assign rejects multi-target / non-name
-    for test, body in q.if_chain([s for s in ts.body if isinstance(s, ast.If)][-1])[0]:
+    for test, body in q.dispatch_chain(ts.body)[0]:
         if "ast.Assign" in norm(test):
             S = ts.params[0]
             uses = [n for s_ in body for n in ast.walk(s_) if isinstance(n, ast.Attribute) and n.attr == "id" and pat.t(n.value) == f"{S}.targets[0]"]
